@@ -405,8 +405,8 @@ impl Property for C18 {
     }
     fn budget(&self, tier: Tier) -> (u32, usize) {
         match tier {
-            Tier::Quick => (3_000, 8),
-            Tier::Thorough => (100_000, 16),
+            Tier::Quick => (30_000, 8),
+            Tier::Thorough => (500_000, 16),
         }
     }
     fn run(&self, case: &HcCase) -> Report {
